@@ -278,6 +278,23 @@ def run(ctx):
                     if c.get("k") == "call" and callee_short(c) == "push_back" and field_of(c.get("this")) == "InterrogateDatabase::_global_types":
                         ok = True
     ctx.ob("R13.3", "merge_from|shared-type|global-union", ok, mf.loc(), "a shared type that is global on the incoming side only is appended to _global_types")
+    # … and the test must read the old global-ness: merge_with() ORs the flags together, so a test
+    # placed after it can never see "was not global before"
+    tests = []
+    for n in mf.walk():
+        if n.get("k") == "if":
+            sc = show(n["c"]).replace(" ", "")
+            if sc.count("is_global()") == 2 and "!" in sc:
+                tests.append(n)
+    ok2 = False
+    if tests and mw:
+        calls = [c for c in walk(tests[0]["c"]) if c.get("k") == "call" and callee_short(c) == "is_global"]
+        tl = mf.cfg.locate(calls[0]) if calls else None
+        ml = mf.cfg.locate(mw[0])
+        if tl is not None and ml is not None:
+            ok2 = (tl[1] < ml[1]) if tl[0] == ml[0] else (tl[0] in mf.cfg.dominators().get(ml[0], ()) and ml[0] not in mf.cfg.dominators().get(tl[0], ()))
+    ctx.ob("R13.3", "merge_from|shared-type|global-test-before-merge_with", ok2, mf.loc(tests[0]) if tests else mf.loc(),
+           "the `was not global, becomes global` test is evaluated %s merge_with() merges the flags" % ("before" if ok2 else "AFTER (it can never be true)"))
 
     # ------------------------------------------------------------- R13.4
     rm = db.fn("InterrogateDatabase::request_module")
